@@ -60,6 +60,7 @@ import (
 	"pgregory.net/rapid"
 
 	"verif/drv/pbt"
+	"verif/gen"
 )
 
 // Op is one worker operation.
@@ -98,7 +99,20 @@ type Case struct {
 	// that lal's own timers (1 s tick loop, HLS session sweep, delayed HLS cleanup, pull / push timeouts) fire
 	// while sessions are attached
 	LingerMs int `json:"linger_ms,omitempty"`
+	// TickMode: what the ticker goroutine does every period. 0: ServerManager.VerifTick (= one iteration of RunLoop's
+	// ticker: inactive groups are disposed and ERASED, the others ticked, under the manager lock); 1: alternately
+	// VerifTick and Group.Tick without the manager lock; 2: Group.Tick only (no erasure outside the L3 variant)
+	TickMode int `json:"tick_mode,omitempty"`
+	// Notify: lal's own HTTP notify handler (queue + posting goroutine) stays in place, pointed at a loopback receiver
+	// that answers after 0..NotifyDelayMs
+	Notify        bool `json:"notify,omitempty"`
+	NotifyDelayMs int  `json:"notify_delay_ms,omitempty"`
+	// Codec: index into codecSets (what publishers and the origin carry); single inputs deviate (op argument)
+	Codec int `json:"codec,omitempty"`
 }
+
+// raceDetectorOn is set by raceon_test.go (build tag race).
+var raceDetectorOn bool
 
 var opWeights = []struct {
 	k string
@@ -138,6 +152,11 @@ func genCase(t *rapid.T) Case {
 		DummyAudio: rapid.IntRange(0, 4).Draw(t, "dummyAudio") == 0,
 		StaticPull: rapid.IntRange(0, 5).Draw(t, "staticPull") == 0,
 		LingerMs:   rapid.SampledFrom([]int{0, 0, 0, 0, 300, 1300}).Draw(t, "lingerMs"),
+		TickMode:   rapid.SampledFrom([]int{0, 0, 0, 0, 0, 1, 1, 2}).Draw(t, "tickMode"),
+		Notify:     rapid.IntRange(0, 2).Draw(t, "notify") == 0,
+	}
+	if c.Notify {
+		c.NotifyDelayMs = rapid.SampledFrom([]int{0, 5, 50, 200}).Draw(t, "notifyDelayMs")
 	}
 	if c.L3 {
 		c.Hls = true
@@ -153,6 +172,7 @@ func genCase(t *rapid.T) Case {
 	// workers and operations)
 	rnd := rand.New(rand.NewSource(int64(rapid.Uint64().Draw(t, "opSeed"))))
 	pauses := []int{0, 0, 0, 0, 0, 0, 1, 1, 1, 1, 20, 20, 200, 200, 1500, 1500, 60000, 260000}
+	c.Codec = []int{0, 0, 0, 1, 2, 3, 4, 5, 6}[rnd.Intn(9)]
 	k := rapid.IntRange(2, 8).Draw(t, "workers")
 	maxOps := 10
 	if pbt.Thorough() {
@@ -183,6 +203,20 @@ func genCase(t *rapid.T) Case {
 
 var admission = map[string]bool{"pub": true, "pub-rtsp": true, "pub-cust": true, "sub-rtmp": true, "sub-flv": true, "sub-ws": true,
 	"sub-ts": true, "sub-rtsp": true, "pull-start": true, "rtp-pub": true, "hls-get": true}
+
+func codecLabel(cd gen.Codecs) string {
+	v, a := cd.Video, cd.Audio
+	if v == "" {
+		v = "none"
+	}
+	if a == "" {
+		a = "none"
+	}
+	if cd.Enhanced {
+		v += "-enhanced"
+	}
+	return v + "+" + a
+}
 
 func classify(c Case) (bool, []string) {
 	labels := []string{fmt.Sprintf("workers:%d", len(c.Workers)), fmt.Sprintf("names:%d", c.Names)}
@@ -228,13 +262,33 @@ func classify(c Case) (bool, []string) {
 		labels = append(labels, "dispose:at-end")
 	}
 	for name, on := range map[string]bool{"hls": c.Hls, "hook": c.Hook, "push": c.Push, "record": c.Record, "l3": c.L3, "merge-write": c.Merge > 0,
-		"dummy-audio": c.DummyAudio, "static-pull": c.StaticPull, "linger>=1s": c.LingerMs >= 1000, "linger": c.LingerMs > 0} {
+		"dummy-audio": c.DummyAudio, "static-pull": c.StaticPull, "linger>=1s": c.LingerMs >= 1000, "linger": c.LingerMs > 0, "lal-http-notify": c.Notify} {
 		if on {
 			labels = append(labels, "cfg:"+name)
 		}
 	}
 	if c.Hls {
 		labels = append(labels, fmt.Sprintf("hls-cleanup:%d", c.HlsCleanup))
+	}
+	labels = append(labels, fmt.Sprintf("tick-mode:%d", c.TickMode), "codec:"+codecLabel(codecSets[c.Codec%len(codecSets)]))
+	for _, ops := range c.Workers {
+		for _, op := range ops {
+			switch {
+			case op.Kind == "pub-rtsp" && op.Arg%3 == 2:
+				seen["var:rtsp-pub-udp"] = true
+			case op.Kind == "sub-rtsp" && op.Arg%3 == 1:
+				seen["var:rtsp-sub-udp"] = true
+			case op.Kind == "rtp-pub" && op.Arg%3 == 2:
+				seen["var:rtp-pub-tcp"] = true
+			case op.Kind == "pull-start" && op.Arg >= 7:
+				seen["var:pull-rtsp"] = true
+			}
+		}
+	}
+	for k := range seen {
+		if strings.HasPrefix(k, "var:") {
+			labels = append(labels, k)
+		}
 	}
 	sort.Strings(labels)
 	return shared && overlap, labels
